@@ -11,6 +11,29 @@ def prop(**kw):
     return kw
 
 
+# Glue the models rest on without driving it through hooks: the listing of synchronisation,
+# time/context-control, non-local-exit and same-package calls of these functions is compared with
+# the committed one (corpus/syncops.json, bin/mkcorpus) on every run of the properties named here.
+T_GLUE = ["pkg/f1/testing::*"]
+ACTIVE_GLUE = ["internal/workers::ActiveScenario.Run", "internal/workers::ActiveScenario.Setup", "internal/workers::ActiveScenario.Failed",
+               "internal/workers::ActiveScenario.TeardownFailed", "internal/workers::ActiveScenario.RecordDroppedIteration"]
+TRIGGER_GLUE = ["internal/trigger/api::NewIterationWorker.func", "internal/trigger/file::runStage", "internal/trigger/file::newStagesWorker.func",
+                "internal/trigger/users::NewWorker.func", "internal/trigger/users::Rate.func.func"]
+RUN_GLUE = ["internal/run::Run.Do", "internal/run::Run.run", "internal/run::Run.teardownActiveScenario", "internal/run::Run.reportSetupFailure",
+            "internal/run::Run.pushMetrics"]
+GLUE = {
+    "C01": T_GLUE + ACTIVE_GLUE + ["internal/progress::*"],
+    "C02": TRIGGER_GLUE, "C03": TRIGGER_GLUE, "C04": TRIGGER_GLUE,
+    "C05": TRIGGER_GLUE + RUN_GLUE,
+    "C06": T_GLUE + ACTIVE_GLUE + RUN_GLUE, "C07": T_GLUE + ACTIVE_GLUE, "C20": T_GLUE + ACTIVE_GLUE,
+    "C08": T_GLUE + RUN_GLUE + ["internal/run::Result.Failed", "internal/run::Result.Error"],
+    "C09": ["internal/trigger/api::NewIterationWorker.func"],
+    "C15": ["internal/trigger/file::runStage", "internal/trigger/file::newStagesWorker.func"],
+    "C16": ACTIVE_GLUE + ["internal/run::Run.pushMetrics", "internal/run::Run.teardownActiveScenario"],
+    "C17": ACTIVE_GLUE + ["pkg/f1/testing::T.Time", "pkg/f1/testing::recordTime", "internal/progress::*"],
+}
+
+
 def c08_key(c, model):
     # family key of a failing verdict case: which way it is wrong
     if c["impl"] == "crash":
@@ -335,3 +358,6 @@ prop(
                  "the worker pool is an abstract 'all workers exited' event at run level; its own progress is C05_pool_progress",
                  "termination is shown as deadlock-freedom plus environment obligations, not by a ranking function"],
 )
+
+for _pid, _lst in GLUE.items():
+    PROPS[_pid]["drift"] = _lst
